@@ -11,7 +11,9 @@ mod refenc;
 mod rng;
 mod sinks;
 mod dfa;
+mod autspec;
 mod levref;
+mod rangeq;
 
 use ctx::Tier;
 
